@@ -122,12 +122,43 @@ func runH264RT(c *Case, disable, avc bool, calls []h264Call) {
 		rx = make([]byte, 0, 1<<17)
 		c.Tag("rx=one-reused-buffer")
 	}
+	// A third of the cases make all calls of the history from ONE input buffer that the caller reuses
+	// (a capture loop reading each access unit into the same array), half of those also wipe it once
+	// the call has returned; the others pass a fresh exactly-sized slice per call.
+	var tx []byte
+	txWipe := false
+	if c.R.Chance(1, 3) {
+		tx = make([]byte, 0, 4096)
+		txWipe = c.R.Bool()
+		c.Tag("tx=one-reused-buffer")
+	}
 	if try(func() {
 		// payload the whole history first, depacketize afterwards (packets wait in a send queue while
 		// the next access units are packetized): what a call returned must still be its units then
 		all := make([][][]byte, 0, len(calls))
 		for _, cl := range calls {
-			all = append(all, pay.Payload(uint16(cl.mtu), cl.buffer()))
+			if tx == nil {
+				all = append(all, pay.Payload(uint16(cl.mtu), cl.buffer()))
+				continue
+			}
+			// the caller's ONE input buffer: this call's bytes are read into it, the packets that
+			// come back are handed on (copied out, as sending them does) and the buffer is reused
+			b := cl.buffer()
+			if len(b) > cap(tx) {
+				tx = make([]byte, 0, 2*len(b))
+			}
+			in := append(tx[:0], b...)
+			frags := pay.Payload(uint16(cl.mtu), in)
+			sent := make([][]byte, len(frags))
+			for i, f := range frags {
+				sent[i] = append([]byte{}, f...)
+			}
+			all = append(all, sent)
+			if txWipe {
+				for i := range tx[:cap(tx)] {
+					tx[:cap(tx)][i] = 0xEE
+				}
+			}
 		}
 		for _, frags := range all {
 			o.Nat(len(frags))
@@ -379,6 +410,42 @@ func genC10RT(x *Ctx) {
 			}
 			runH264RT(c, disable, avc, calls)
 		})
+	}
+	// (c3) quick tier too: a held-back SPS or PPS of 2^16 … 2^16+100 bytes (the STAP-A size fields and
+	//      any 16-bit length arithmetic wrap there) and an ordinary partner, then a slice; in one call
+	//      or one unit per call; plus an ordinary unit of that size behind an ordinary pair
+	for _, mtu := range []int{1200, 65535} {
+		for which := 0; which < 3; which++ {
+			for _, d := range []int{0, 1, -1} {
+				mtu, which, d := mtu, which, d
+				x.Case(func(c *Case) {
+					big := 65536 + d
+					if d < 0 {
+						big = 65536 + c.R.Range(2, 100)
+					}
+					ls, lp, li := c.R.Range(2, 40), c.R.Range(2, 40), c.R.Pick(2, 30, mtu-1, mtu+1)
+					switch which {
+					case 0:
+						ls = big
+						c.Tag("sps>=2^16")
+					case 1:
+						lp = big
+						c.Tag("pps>=2^16")
+					default:
+						li = big
+						c.Tag("unit>=2^16")
+					}
+					sps, pps, idr := h264Nal(c.R, 7, ls), h264Nal(c.R, 8, lp), h264Nal(c.R, h264OtherType(c.R), li)
+					u := func(n []byte) h264Unit { return h264Unit{four: c.R.Bool(), nal: n} }
+					calls := []h264Call{{mtu: mtu, units: []h264Unit{u(sps), u(pps), u(idr)}}}
+					if c.R.Bool() {
+						calls = []h264Call{{mtu: mtu, units: []h264Unit{u(sps)}}, {mtu: mtu, units: []h264Unit{u(pps)}}, {mtu: mtu, units: []h264Unit{u(idr)}}}
+						c.Tag("calls>1")
+					}
+					runH264RT(c, false, c.R.Bool(), calls)
+				})
+			}
+		}
 	}
 }
 
